@@ -323,7 +323,7 @@ class AbstractDataframeDataReader:
             df.sort_index(inplace=True)
 
         # Create individuals to store
-        for idx_subj, df_subj in df.groupby(level="ID", sort=False):
+        for idx_subj, df_subj in df.groupby(level="ID", sort=False, observed=True):
             self.individuals[idx_subj] = IndividualData(idx_subj)
             self._load_individuals_data(self.individuals[idx_subj], df_subj)
 
